@@ -28,7 +28,7 @@ func init() {
 	Register(&PropDef{
 		ID: "C05",
 		Profile: func(tier string, r *Rng) Profile {
-			return Profile{Name: "c05-stake", MinTx: 3, MaxTx: 8, Equivocate: 0.02, Hostile: 0.08, VoteFault: 0.03, GapBig: 0.06, Gov: false,
+			return Profile{Name: "c05-stake", MinTx: 3, MaxTx: 8, Equivocate: 0.02, Downtime: 0.03, Hostile: 0.08, VoteFault: 0.03, GapBig: 0.06, Gov: false,
 				W: map[string]float64{"delegate": 7, "undelegate": 5, "redelegate": 3, "cancelUnbond": 1.5, "proposeDispute": 6, "addFee": 4, "vote": 8,
 					"withdrawFeeRefund": 4, "withdrawTip": 5, "createValidator": 1, "privileged": 0.1, "registerSpec": 0.1, "requestAttest": 0.2, "withdrawTokens": 0.3, "claimDeposits": 0.1}}
 		},
@@ -92,7 +92,7 @@ func c14Fragments(r *Rng) []string {
 }
 
 func disputeProfile(name string) Profile {
-	return Profile{Name: name, MinTx: 3, MaxTx: 8, Hostile: 0.12, VoteFault: 0.0, GapBig: 0.10, Gov: false, Equivocate: 0.01,
+	return Profile{Name: name, MinTx: 3, MaxTx: 8, Hostile: 0.12, VoteFault: 0.0, GapBig: 0.10, Gov: false, Equivocate: 0.01, Downtime: 0.02,
 		W: map[string]float64{"proposeDispute": 7, "addFee": 5, "vote": 14, "withdrawFeeRefund": 5, "claimReward": 5, "addEvidence": 1.5, "tip": 8, "submit": 18,
 			"delegate": 5, "undelegate": 3, "redelegate": 2, "selectReporter": 4, "createReporter": 4, "unjailReporter": 3, "privileged": 0.1, "registerSpec": 0.1,
 			"requestAttest": 0.2, "withdrawTokens": 0.3, "claimDeposits": 0.1, "createValidator": 0.3}}
@@ -164,7 +164,7 @@ func init() {
 func init() {
 	Register(&PropDef{ID: "C10",
 		Profile: func(tier string, r *Rng) Profile {
-			return Profile{Name: "c10-power", MinTx: 3, MaxTx: 9, Equivocate: 0.01, Hostile: 0.1, VoteFault: 0.06, GapBig: 0.06, Gov: true,
+			return Profile{Name: "c10-power", MinTx: 3, MaxTx: 9, Equivocate: 0.01, Downtime: 0.03, Hostile: 0.1, VoteFault: 0.06, GapBig: 0.06, Gov: true,
 				W: map[string]float64{"submit": 30, "tip": 8, "delegate": 10, "undelegate": 6, "redelegate": 5, "createReporter": 6, "selectReporter": 8, "switchReporter": 12, "removeSelector": 2,
 					"unjailReporter": 4, "proposeDispute": 3, "vote": 3, "createValidator": 1.5, "unjailVal": 1.5, "govProposal": 1, "govVote": 4, "cancelUnbond": 1.5}}
 		},
@@ -219,8 +219,8 @@ func init() {
 		Monitors: func(st *Stats) []Monitor { return []Monitor{NewC18ChainMonitor(st)} }, Cases: tierMap(32, 96), Blocks: tierMap(250, 600)})
 	Register(&PropDef{ID: "C09chain",
 		Profile: func(tier string, r *Rng) Profile {
-			return Profile{Name: "c09-tbr", MinTx: 3, MaxTx: 8, Hostile: 0.1, GapBig: 0.04, Gov: true, Fragments: []string{"mintInit", "depositPair"},
-				W: map[string]float64{"submit": 30, "tip": 12, "createReporter": 5, "selectReporter": 6, "delegate": 6, "govVote": 5, "govProposal": 0.6, "registerSpec": 1}}
+			return Profile{Name: "c09-tbr", MinTx: 3, MaxTx: 8, Hostile: 0.1, GapBig: 0.04, Gov: true, Fragments: []string{"mintInit", "offParOrigins", "depositPair"},
+				W: map[string]float64{"submit": 30, "tip": 12, "createReporter": 5, "selectReporter": 6, "delegate": 8, "unjailVal": 5, "govVote": 5, "govProposal": 0.6, "registerSpec": 1}}
 		},
 		Monitors: func(st *Stats) []Monitor { return []Monitor{NewC09ChainMonitor(st)} }, Cases: tierMap(32, 96), Blocks: tierMap(250, 600)})
 }
